@@ -24,7 +24,7 @@ func init() {
 	Registry["C17"] = &Prop{
 		Plan: func(tier string) Plan {
 			return Plan{Level: "exploration", NCases: pick(tier, 32, 3200), Batch: 1, CaseTimeout: 120, Par: 16,
-				Rule: "one case = a PRNG history over Event keys (<prefix>/events/ns/x) and look-alikes (<prefix>/pods/events/x, <prefix>/eventsx/y, <prefix>/cm/ns/events/, keys outside the prefix) on an engine without native TTL (TiKV mock; memkv behind a wrapper reporting SupportTTL()=false) with the built-in compaction expiry — either the exported scanner with Config.TTL 300ms driven directly, or a whole backend with the events TTL set to 1s through the verif hook — or on an engine with native TTL (memkv, Badger) with TTL 1s; sequence: writes (some events deleted and created again at once), Compact (mark), pause, updates of some events (younger), Compact; control cases use TTL 1h. A watcher stays open throughout. " +
+				Rule: "one case = a PRNG history over Event keys (<prefix>/events/ns/x) and look-alikes (<prefix>/pods/events/x, <prefix>/eventsx/y, <prefix>/cm/ns/events/, keys outside the prefix) on an engine without native TTL (TiKV mock; memkv behind a wrapper reporting SupportTTL()=false) with the built-in compaction expiry — either the exported scanner with Config.TTL 300ms driven directly, or a whole backend with the events TTL set to 1s through the verif hook — or on an engine with native TTL (memkv, Badger) with TTL 1s; sequence: writes (some events deleted and created again at once), Compact (mark), pause, updates of some events (younger), Compact (in a third of the cases at an older revision than the first one); control cases use TTL 1h. A watcher stays open throughout. " +
 					"oracle: a key that lost its index or any version without a client delete/compaction-eligible reason must be an Event directly under the prefix, its newest write must have BEGUN at least TTL before the expiry COULD have happened (monotonic clock; so load can only make a case inconclusive, never an alarm), it must have lost index and all versions together, read absent at latest and be creatable again; the watcher saw only client writes; with TTL 1h nothing is removed. " +
 					"non-trivial = case in which >=1 expiry actually happened and >=1 look-alike and >=1 younger event were present; distinct by (kind, key set, expired set)",
 				Assumptions: []string{"the backend's TTL is whole seconds, so backend-level cases pause 1.3-1.6 s; Badger keeps expiry in whole seconds, so its cases use TTL 3 s and allow one second of slack", "expiry is never demanded, only constrained"},
@@ -182,8 +182,12 @@ func runC17(c *harness.Case) {
 			}
 		}
 	}
+	olderRev := uint64(0) // if set, the next compaction names this (older) revision instead of the current one
 	compact := func(label string) time.Time {
 		rev := n.Committed()
+		if olderRev != 0 {
+			rev, olderRev = olderRev, 0
+		}
 		if sc != nil {
 			start, end := coderC.EncodeObjectKey([]byte(full), 0), coderC.EncodeObjectKey(backend.PrefixEnd([]byte(full)), 0)
 			sc.Compact(harness.Ctx, start, end, rev)
@@ -250,6 +254,12 @@ func runC17(c *harness.Case) {
 			hist = append(hist, "    (injected: the removal of this event's index record fails once with a storage error)")
 			return harness.ErrInjected
 		}
+	}
+	if !control && c.Index%3 == 1 {
+		// the second compaction names an OLDER revision than the first one did (a client's explicit request, or the
+		// background loop's current-1000): the events it meets lie above its revision, expiry must still be whole
+		olderRev = n.Start + 1 + uint64(r.Intn(8))
+		c.Stat("second_compactions_at_an_older_revision", 1)
 	}
 	tEnd := compact("second")
 	raceHook, faultHook = nil, nil
